@@ -1100,8 +1100,8 @@ const (
 func Returns(fn *ssa.Function) []*ssa.Return {
 	var out []*ssa.Return
 	for _, b := range fn.Blocks {
-		if len(b.Instrs) == 0 {
-			continue
+		if len(b.Instrs) == 0 || b == fn.Recover {
+			continue // the synthetic recover block is not part of normal control flow
 		}
 		if r, ok := b.Instrs[len(b.Instrs)-1].(*ssa.Return); ok {
 			out = append(out, r)
